@@ -329,6 +329,18 @@ func Send(method, rawurl string, options ...SendOption) (*http.Response, error) 
 		Transport:     opts.transport,
 	}
 
+	// A retry must resend the complete body. net/http restores the body of a
+	// reused request only if it has GetBody (in-memory readers); other bodies are
+	// rewound here if they can seek, and are never resent otherwise.
+	bodyStart := int64(-1)
+	if opts.body != nil && req.GetBody == nil {
+		if s, ok := opts.body.(io.Seeker); ok {
+			if pos, serr := s.Seek(0, io.SeekCurrent); serr == nil {
+				bodyStart = pos
+			}
+		}
+	}
+
 	var resp *http.Response
 	for {
 		resp, err = client.Do(req)
@@ -353,6 +365,19 @@ func Send(method, rawurl string, options ...SendOption) (*http.Response, error) 
 			d := opts.retry.backoff.NextBackOff()
 			if d == backoff.Stop {
 				break // Backoff timed out.
+			}
+			if opts.body != nil && req.GetBody == nil {
+				if bodyStart < 0 {
+					break // The consumed body cannot be sent again.
+				}
+				if _, serr := opts.body.(io.Seeker).Seek(bodyStart, io.SeekStart); serr != nil {
+					break
+				}
+				rewound, rerr := newRequest(method, opts)
+				if rerr != nil {
+					break
+				}
+				req = rewound
 			}
 			time.Sleep(d)
 			continue
